@@ -193,6 +193,58 @@ def work(chunk):
 
 
 # ---------------------------------------------------------------------------------------------
+# one Taylor object, several expansion points (the class is public and callable; taylor() builds a fresh one each time)
+
+REUSE_FUNCS = ['exp(z)', '1/(2-z)', 'sin(2z)', 'exp(z)/(2-z)']
+REUSE_SEQS = [[0.0, 0.5, 0.0], [0.5, -0.3 + 0.4j, 0.2j, 0.5], [0.2j, 0.0]]
+
+
+def work_reuse(chunk):
+    from numdifftools import fornberg as ndf
+    acc = fw.Acc()
+    K1, K2 = float(cm.ENV['C17']['K1']), float(cm.ENV['C17']['K2'])
+    for fname, n, si in chunk:
+        f = jets.make_fun(FUNCS[fname][0])
+        seq = REUSE_SEQS[si]
+        obj = ndf.Taylor(f, n=n, full_output=True)
+        for idx, z0 in enumerate(seq):
+            jc = dict(kind='reuse', f=fname, n=n, seq=si, call=idx)
+            case = ('reuse', fname, n, si, idx)
+            try:
+                with warnings.catch_warnings():
+                    warnings.simplefilter('ignore')
+                    with np.errstate(all='ignore'):
+                        coefs, info = obj(z0)
+            except Exception as e:      # noqa: BLE001
+                acc.case(case, nontrivial=True, cell='reuse/taylor-object', outcome='raised')
+                acc.violation('C17:Taylor-object-reuse:raised-%s' % type(e).__name__, jc, 'call %d (z0=%r) of one Taylor(%s, n=%d) '
+                              'object raised %s: %s' % (idx + 1, z0, fname, n, type(e).__name__, e), idx)
+                break
+            coefs, est = np.asarray(coefs), np.asarray(info.error_estimate)
+            prob = None
+            if info.degenerate or info.failed:
+                prob = 'status degenerate=%r failed=%r for a function analytic within %.3g at the default radius' % (
+                    info.degenerate, info.failed, dist_to_singularity(fname, z0))
+            else:
+                R = float(info.final_radius)
+                M = max_on_circle(fname, z0, R) if R < dist_to_singularity(fname, z0) else float('inf')
+                a = exact_coefs(fname, z0, coefs.size)
+                if math.isfinite(M):
+                    for k in range(n + 1):
+                        err = abs(complex(coefs[k]) - a[k])
+                        if not err <= K1 * float(abs(est[k])) + K2 * EPS * M / R ** k:
+                            prob = 'coefficient %d = %r, exact %r: error %.3g > K1=%g x estimate %.3g + floor %.3g' % (
+                                k, complex(coefs[k]), a[k], err, K1, float(abs(est[k])), K2 * EPS * M / R ** k)
+                            break
+            acc.case(case, nontrivial=idx > 0, cell='reuse/taylor-object', outcome=prob is None)
+            if prob:
+                acc.violation('C17:Taylor-object-reuse:coefficient', jc, 'call %d (z0=%r, after calls at %r) of one Taylor(%s, n=%d) '
+                              'object: %s' % (idx + 1, z0, seq[:idx], fname, n, prob), idx)
+                break
+    return acc
+
+
+# ---------------------------------------------------------------------------------------------
 # radius-search protocol with a scripted environment
 
 def model_protocol(script, max_iter, min_iter, num_extrap, r0, ratio):
@@ -347,11 +399,12 @@ def run(ctx):
     # the same scripts with min_iter given explicitly: as its documented default max_iter // 2, and as 2
     pjobs += [j + (j[1] // 2,) for j in pjobs[::7]] + [j + (2,) for j in pjobs[3::11]]
     pacc = ctx.pmap(work_protocol, pjobs, chunk=200)
+    pacc.merge(ctx.pmap(work_reuse, [(f, n, si) for f in REUSE_FUNCS for n in (3, 6, 12) for si in range(len(REUSE_SEQS))], chunk=2))
     acc.merge(pacc)
     for c in cases[:2] + cases[len(cases) // 2:len(cases) // 2 + 2]:
         acc.sample(dict(f=c[0], z0=c[1], n=c[2], r=c[3], step_ratio=c[4], num_extrap=c[5]))
     acc.sample(dict(kind='protocol', script='LLSLLPLLLL...', meaning='environment answers per iteration: Larger/Smaller/Poor/Degenerate'))
-    req = ['f/' + f for f in FUNCS if FUNCS[f][1] != 'poly'] + ['n=%d' % n for n in NS] + ['z0/real', 'z0/complex', 'protocol/max_iter=6',
+    req = ['reuse/taylor-object'] + ['f/' + f for f in FUNCS if FUNCS[f][1] != 'poly'] + ['n=%d' % n for n in NS] + ['z0/real', 'z0/complex', 'protocol/max_iter=6',
                                                                   'protocol/max_iter=30']
     rule = ('%d accuracy cases: 13 functions with known series x 5 z0 x n in %r x r in %r x step_ratio x num_extrap%s; exact '
             'coefficients from 60-digit complex jets; when neither degenerate nor failed: |c_k - a_k| <= K1 x estimate_k + '
@@ -367,6 +420,10 @@ def run(ctx):
 
 
 def replay(case):
+    if case.get('kind') == 'reuse':
+        a = work_reuse([(case['f'], case['n'], case['seq'])])
+        bad = [r['detail'] for k, (n, recs) in a.viol.items() for r in recs]
+        return not bad, '%r -> %s' % (case, bad or 'ok')
     if case.get('kind') == 'protocol':
         a = work_protocol([(case['script'], case['max_iter'], case['num_extrap']) + ((case['min_iter'],) if 'min_iter' in case else ())])
     else:
